@@ -102,6 +102,17 @@ func (Prop) Gen(r *core.Rand, tier string) interface{} {
 		}
 		c.Tasks = append(c.Tasks, prog)
 	}
+	if r.Chance(12) {
+		// keeper scenario: some tasks join things with their (soft-deleted) keeper
+		// while others make first use of the keeper model
+		for t := range c.Tasks {
+			if t%2 == 0 {
+				c.Tasks[t] = append([]Op{{Kind: "keeper_setup"}, {Kind: "joins_keeper"}}, c.Tasks[t]...)
+			} else {
+				c.Tasks[t] = append([]Op{{Kind: "keeper_find"}}, c.Tasks[t]...)
+			}
+		}
+	}
 	// schedule: entry 0 = keep running the current task; the density of context
 	// switches is drawn per case (sparse vectors let tasks make progress between
 	// switches, dense ones interleave at almost every yield)
@@ -293,6 +304,31 @@ func runOp(db *gorm.DB, t int, op Op) string {
 		return out(db.Delete(&fam.User{ID: id}), "")
 	case "delete_pet":
 		return out(db.Delete(&fam.Pet{ID: id + 1}), "")
+	case "keeper_setup":
+		// a soft-deleted keeper and a thing that still points at it, written without touching the models
+		err := db.Transaction(func(tx *gorm.DB) error {
+			if err := tx.Exec("INSERT OR REPLACE INTO keepers(id,name,deleted_at) VALUES (?,?,?)", id+50, "gone", "2020-03-01 00:00:00+00:00").Error; err != nil {
+				return err
+			}
+			return tx.Exec("INSERT OR REPLACE INTO things(id,name,keeper_id) VALUES (?,?,?)", id+51, "orphan", id+50).Error
+		})
+		return fmt.Sprintf("err=%v", err)
+	case "joins_keeper":
+		var ts []fam.Thing
+		tx := db.Joins("Keeper").Where("things.id BETWEEN ? AND ?", lo, hi).Order("things.id").Find(&ts)
+		var parts []string
+		for _, th := range ts {
+			k := "no-keeper"
+			if th.Keeper != nil {
+				k = fmt.Sprintf("keeper%d", th.Keeper.ID)
+			}
+			parts = append(parts, fmt.Sprintf("thing%d:%s", th.ID, k))
+		}
+		return out(tx, strings.Join(parts, " "))
+	case "keeper_find":
+		var ks []fam.Keeper
+		tx := db.Unscoped().Preload("Things").Where("id BETWEEN ? AND ?", lo, hi).Find(&ks)
+		return out(tx, fmt.Sprint(len(ks)))
 	case "tx", "tx_fail":
 		err := db.Transaction(func(tx *gorm.DB) error {
 			if err := tx.Create(&fam.Note{ID: id + 70 + uint(op.X), Body: "in-tx", Rank: op.X}).Error; err != nil {
@@ -754,7 +790,7 @@ func (p Prop) Run(ci interface{}, focus *core.Violation) *core.Outcome {
 				g = got.results[t][i]
 			}
 			if w != g {
-				v := &core.Violation{Class: "result_differs", Key: c.Tasks[t][i].Kind, Detail: fmt.Sprintf("task %d op %d (%s): concurrent run returned\n  %s\nserial run returned\n  %s\n(%s)", t, i, c.Tasks[t][i].Kind, g, w, cfg)}
+				v := &core.Violation{Class: "result_differs", Key: fmt.Sprintf("%s|cold=%v", c.Tasks[t][i].Kind, c.Cold), Detail: fmt.Sprintf("task %d op %d (%s): concurrent run returned\n  %s\nserial run returned\n  %s\n(%s)", t, i, c.Tasks[t][i].Kind, g, w, cfg)}
 				if o.Report(v, focus, o.TraceHash) {
 					return o
 				}
